@@ -606,6 +606,74 @@ pub fn stress_templates() -> Vec<(String, String)> {
     v
 }
 
+/// A seeded random heap graph ("however its values reference one another"): objects (with parents,
+/// fields, a method) and arrays, wired by random field/element assignments that may form cycles of any
+/// shape — rings, tails leading into loops, shared sub-graphs — then printed from and dispatched on
+/// random nodes.
+pub fn random_graph_program(rng: &mut Rng) -> String {
+    let cap = if rng.below(5) == 0 { 40 } else { 9 };
+    let n = 2 + rng.usize_below(cap);
+    let mut kinds: Vec<bool> = Vec::new(); // true = object
+    let mut lens: Vec<usize> = Vec::new();
+    let mut s = String::new();
+    for i in 0..n {
+        let is_obj = rng.below(3) != 0;
+        kinds.push(is_obj);
+        if is_obj {
+            let parent = match rng.below(5) {
+                0 if i > 0 => format!(" extends n{}", rng.usize_below(i)),
+                1 => " extends 7".to_string(),
+                2 => " extends true".to_string(),
+                _ => String::new(),
+            };
+            let method = if rng.coin() { format!(" function m() -> {};", i) } else { String::new() };
+            s.push_str(&format!("let n{} = object{} begin let a = null; let b = {};{} end;\n", i, parent, i, method));
+            lens.push(0);
+        } else {
+            let len = 1 + rng.usize_below(3);
+            s.push_str(&format!("let n{} = array({}, null);\n", i, len));
+            lens.push(len);
+        }
+    }
+    let edges = n + rng.usize_below(2 * n);
+    for _ in 0..edges {
+        let a = rng.usize_below(n);
+        let b = rng.usize_below(n);
+        if kinds[a] {
+            s.push_str(&format!("n{}.{} <- n{};\n", a, if rng.coin() { "a" } else { "b" }, b));
+        } else {
+            let k = rng.usize_below(lens[a]);
+            s.push_str(&format!("n{}[{}] <- n{};\n", a, k, b));
+        }
+    }
+    s.push_str("print(\"partial \");\n");
+    for _ in 0..(1 + rng.usize_below(3)) {
+        let r = rng.usize_below(n);
+        match rng.below(4) {
+            0 if kinds[r] => s.push_str(&format!("print(\"~\\n\", n{}.m());\n", r)),
+            1 => { let q = rng.usize_below(n); s.push_str(&format!("print(\"~ and ~\\n\", n{}, n{});\n", r, q)) }
+            _ => s.push_str(&format!("print(\"~\\n\", n{});\n", r)),
+        }
+    }
+    s.push_str("print(\"end\\n\")\n");
+    s
+}
+
+fn shrink_stress(c: &StressCase) -> StressCase {
+    let want = match judge_stress(c) { Some((o, _)) => o, None => return c.clone() };
+    let mut lines: Vec<String> = c.source.split(";\n").map(|l| l.to_string()).collect();
+    let mut j = lines.len();
+    while j > 0 {
+        j -= 1;
+        if lines.len() <= 1 { break; }
+        let mut cand = lines.clone();
+        cand.remove(j);
+        let cc = StressCase { source: cand.join(";\n"), ..c.clone() };
+        if matches!(judge_stress(&cc), Some((o, _)) if o == want) { lines = cand; }
+    }
+    StressCase { source: lines.join(";\n"), ..c.clone() }
+}
+
 #[derive(Clone, Debug)]
 pub struct StressCase {
     pub name: String,
@@ -796,11 +864,20 @@ pub fn run(seed: u64, tier: &str, ev: &mut Evidence) -> Vec<Violation> {
         }
         stress_cases.push(StressCase { name: name.clone(), source: source.clone(), profile: Profile::Debug, path: Path::Staged });
     }
+    let n_graphs = if thorough { 40_000usize } else { 400 };
+    for j in 0..n_graphs {
+        let mut rng = Rng::for_case(seed, "C10", "random-graph", j as u64);
+        let source = random_graph_program(&mut rng);
+        let profile = if rng.coin() { Profile::Debug } else { Profile::Release };
+        let path = if rng.below(5) == 0 { Path::Staged } else { Path::Run };
+        stress_cases.push(StressCase { name: "random_heap_graph".into(), source, profile, path });
+    }
+    ev.count("random_heap_graph_programs", n_graphs as u64);
     let stress: Vec<Option<(String, String)>> = par_map(stress_cases.len(), |i| judge_stress(&stress_cases[i]));
     for (c, v) in stress_cases.iter().zip(stress.into_iter()) {
         ev.evaluations += 1;
         children += if c.path == Path::Run { 1 } else { 3 };
-        ev.distinct.insert(digest_of(&("stress", &c.name, c.profile, c.path)));
+        ev.distinct.insert(digest_of(&("stress", &c.name, digest_bytes(c.source.as_bytes()), c.profile, c.path)));
         ev.count("stress_template_runs", 1);
         if let Some((o, d)) = v {
             let family: String = c.name.trim_end_matches(|ch: char| ch.is_ascii_digit() || ch == '_').to_string();
@@ -823,6 +900,15 @@ pub fn run(seed: u64, tier: &str, ev: &mut Evidence) -> Vec<Violation> {
         };
         if seen.contains(&key) { continue; }
         seen.push(key);
+        if kind == "stress" && replay_json.get("name").and_then(|n| n.as_str()) == Some("random_heap_graph") {
+            if let Some(case) = StressCase::from_json(&replay_json) {
+                let small = shrink_stress(&case);
+                if let Some((o2, d2)) = judge_stress(&small) {
+                    violations.push(Violation { property: "C10".into(), oracle: o2, detail: d2, signature: sig, replay: small.to_json() });
+                    continue;
+                }
+            }
+        }
         if kind == "injection" {
             if let Some(case) = Case::from_json(&replay_json) {
                 let small = minimise(&case, &oracle);
